@@ -401,3 +401,15 @@ def run(ctx, rep):
     rep.rule('R15.9', 'a value is decoded only as what it is: every as_int / as_bool / as_function is preceded on every path by a test that the object has that tag (the decoders only shift the word: `ja` would read as 1, null as 0)')
     from rules import unsafe_inv
     unsafe_inv.check_immediates(ctx, rep, 'R15.9')
+    rep.rule('R15.10', "the language's == and != are the encoding's equality: the operator methods Object::eq / Object::neq answer with PartialEq::eq / ne of the two operands (an ordering is no substitute: functions have none, and NaN is unordered yet different)")
+    from rules import chain as _chain
+    sem = _chain.object_method_semantics(ctx)
+    for m_, want in (('eq', '=='), ('neq', '!=')):
+        info = sem.get(m_)
+        if info is None:
+            rep.bad('R15.10', 'object::Object::' + m_, 'operator method', 'no binary method Object::%s(self, rhs, gc) found' % m_, 'src/object.rs')
+            continue
+        cmps = sorted(info['cmp'])
+        ok = _chain.classify(info) == want and all({c[1], c[2]} == {1, 2} for c in cmps)
+        rep.ob(ok, 'R15.10', 'object::Object::' + m_, 'answers with %s of the two operands' % want,
+               'comparisons of Object values found on the Ok paths: %s' % [('%s(arg%s, arg%s)' % c) for c in cmps], info['fn'].loc())
